@@ -1,7 +1,7 @@
 // cargo test --offline --test verif_demo_c01_txt
-// A TXT record with RDLENGTH 0 is accepted by Txt::parse although the type's
-// invariant (and Txt::from_octets) says TXT data is never empty; the value it
-// returns then panics in as_flat_slice().
+// A TXT record with RDLENGTH 0 is accepted by Txt::parse (the repository's
+// zone-file tests rely on that), but as_flat_slice() indexed octet 0 of the
+// value unconditionally and panicked.
 use domain::base::iana::Rtype;
 use domain::base::Message;
 use domain::rdata::Txt;
@@ -27,7 +27,8 @@ fn empty_txt_from_the_wire_does_not_yield_a_value_that_panics() {
                 // whatever was returned must be usable without failure
                 let txt = rec.data();
                 let _ = txt.as_flat_slice();
-                assert!(txt.iter_charstrs().count() >= 1, "TXT data is never empty");
+                let _ = txt.iter_charstrs().count();
+                let _ = format!("{}", txt);
             }
         }
     }
